@@ -244,7 +244,7 @@ impl Prop for C16 {
         let mut ch = Choices::new(choices);
         if ch.chance(1, 8) {
             let c = crate::props::c10::gen_case(&mut ch, tier);
-            let text = if c.entry == 1 { c.text[crate::props::c10::header_for(c.kind).len()..].to_string() } else { c.text };
+            let text = c.body().to_string();
             return serde_json::to_value(GCase { ag: c.ag, text: Some((c.kind, text)) }).unwrap();
         }
         let ag = gen_grammar(&mut ch, &table_opts(tier));
